@@ -46,11 +46,12 @@ func nameConforms(c *Ctx, pa *provAnalysis, format string, v ssa.Value) (bool, s
 }
 
 func checkC04(c *Ctx, r *Report) {
-	r.Rules = []string{"O3 member order and names (deb ar, ipk, apk segments and cut/full kinds, archlinux)", "D4 deb compression name -> constructor -> member suffix", "F10 every tar member name is relative by construction", "O4 nested archives are completed before they are read (shared with C06-E2/E2m)", "uniqueness / parents-before-children inherited from the plan (shared with C05)", "F10-size header-only members carry size zero", "O3-align apk segments end on a 512-byte boundary without a whole zero block", "mtree-F8 .PKGINFO first in .MTREE (imported from C03)", "apk-F12-apk segment order by buffer identity (imported from C10)", "fresh-G4 archives start in fresh buffers (imported from C11)", "O3-all every return that can report success follows all mandatory members (deb, ipk)", "F10-rpm names handed to rpmpack are normalised at their last definition", "O4-once a buffer holding a finished part is read by one consumer on any path", "plan-K2c (imported from C05)"}
+	r.Rules = []string{"O3 member order and names (deb ar, ipk, apk segments and cut/full kinds, archlinux)", "D4 deb compression name -> constructor -> member suffix", "F10 every tar member name is relative by construction", "O4 nested archives are completed before they are read (shared with C06-E2/E2m)", "uniqueness / parents-before-children inherited from the plan (shared with C05)", "F10-size header-only members carry size zero", "O3-align apk segments end on a 512-byte boundary without a whole zero block", "mtree-F8 .PKGINFO first in .MTREE (imported from C03)", "apk-F12-apk segment order by buffer identity (imported from C10)", "fresh-G4 archives start in fresh buffers (imported from C11)", "O3-all every return that can report success follows all mandatory members (deb, ipk)", "F10-rpm names handed to rpmpack are normalised at their last definition", "O4-once a buffer holding a finished part is read by one consumer on any path", "plan-K2c (imported from C05)", "F10-ids numeric uid/gid of tar headers are zero or a non-negative constant", "F10-rpm-type rpm file type flags are fixed where the record is built"}
 	r.Explanation = "Structural necessary conditions of well-formedness decided from source. (O3) deb: the ar global header is written before any member and the members are debian-binary (constant body \"2.0\\n\"), control.tar.gz, the data member, then the optional signature, in that order on every path; ipk: ./debian-binary, ./control.tar.gz, ./data.tar.gz in that order through the './'-prefixing helper; apk: the data segment is written as a complete tar (the kind constant for which the writer flushes after closing the tar), control and signature as cut tars, the buffered writer is large enough to hold back the end-of-archive marker (>= 1024), Flush precedes the tar Close, and .PKGINFO is the first entry of the control segment; archlinux: .INSTALL is written only when at least one script is configured. (D4) the deb compression setting is evaluated for every accepted name and for an unknown one: exactly one compressor constructor is live and the member name carries the matching suffix; an unknown name is an error. (F10) for every tar header created on a packaging path, every definition of Name that can reach the point where the header is written (flow-sensitive reaching stores) is a relative constant, is built from constants, or passes the format's relative-name helper; a header made by tar.FileInfoHeader keeps its source-path name unless overwritten on every path. (O4) every tar/compressor layered over a buffer is closed before the buffer is read. Uniqueness of names and parents-before-children follow from the plan rules of C05, which are re-evaluated here. Acceptance by dpkg/rpm/apk/pacman and rpm's internal layout are not decided."
 	r.Explanation += " (F10-size) per header, over the combinations of Typeflag and Size definitions that can hold together at a use, a header-only class never meets a size other than the constant zero. (O3-align) the hand-written padding of apk segments, evaluated in an affine domain for every residue of the byte counter modulo 512, satisfies 0 <= pad < 512 and (counter+pad) mod 512 = 0. Imported: .PKGINFO first in .MTREE (C03 F8), apk segment order by buffer identity (C10 F12-apk), fresh output buffers (C11 G4), and the planner's path discipline (C05 G-*, O5-parents-clean)."
 	r.Explanation += " (O3-all) in deb's Package and ipk's outer writer every return whose error is not provably non-nil is dominated by the writes of all mandatory members. (F10-rpm) every definition of a file record's Name that reaches rpmpack's AddFile is the result of files.ToNixPath (or a clean absolute constant), and one such definition dominates the call."
 	r.Explanation += " (O4-once) every local bytes.Buffer of a packager that is read (as io.Reader argument, element of a reader list, Read/WriteTo/Next, or by a module function that reads its parameter) has no two readers on one path."
+	r.Explanation += " (F10-ids) stores to tar.Header.Uid/Gid in packager packages are non-negative constants. (F10-rpm-type) RPMFile.Type is stored only through a fresh record (the builder's own allocation or the result of a fresh-returning builder)."
 	r.Assumptions = []string{
 		"archive/tar, blakesmith/ar, pgzip, zstd, xz and rpmpack produce well-formed containers for well-formed input",
 		"files.AsRelativePath / AsExplicitRelativePath return clean relative paths (their string semantics are not analysed)",
@@ -237,6 +238,7 @@ func checkC04(c *Ctx, r *Report) {
 	checkAPKStructure(c, r)
 	checkRPMNames(c, r)
 	checkBuffersReadOnce(c, r)
+	checkHeaderIDsAndFlags(c, r)
 
 	// ---- O3 archlinux: .INSTALL only with scripts ----
 	if pk := c.PackagerByFormat("archlinux"); pk != nil {
@@ -1065,4 +1067,64 @@ func paramIsRead(c *Ctx, fn *ssa.Function, p *ssa.Parameter, depth int) bool {
 		}
 	}
 	return false
+}
+
+// checkHeaderIDsAndFlags: two header-level details strict readers depend on.
+// (F10-ids) the numeric uid/gid fields of tar headers are left at zero or set
+// from a non-negative constant - owners are recorded by name; a computed id
+// can be negative (written in base-256, which dpkg rejects). (F10-rpm-type) an
+// rpm file record's type flags are fixed where the record is built: rpmpack
+// decides "ghost: no payload" by comparing the whole flag word, so flags
+// or-ed in afterwards (a %doc bit for everything below the doc directory) put
+// a ghost into the payload while the header still says ghost.
+func checkHeaderIDsAndFlags(c *Ctx, r *Report) {
+	nIDs, nType := 0, 0
+	var badID, badType string
+	var atID, atType ssa.Instruction
+	for _, pk := range c.Packagers {
+		if pk.Format == "" {
+			continue
+		}
+		for _, fn := range c.ModFuncs {
+			if c.funcPkgPath(fn) != pk.PkgPath {
+				continue
+			}
+			forEachInstr(fn, func(in ssa.Instruction) {
+				st, ok := in.(*ssa.Store)
+				if !ok {
+					return
+				}
+				fa, ok := st.Addr.(*ssa.FieldAddr)
+				if !ok {
+					return
+				}
+				name := fieldName(fa.X.Type(), fa.Field)
+				switch {
+				case isNamed(derefType(fa.X.Type()), "archive/tar", "Header") && (name == "Uid" || name == "Gid"):
+					nIDs++
+					if k, isK := st.Val.(*ssa.Const); !isK || k.Value == nil || k.Int64() < 0 {
+						badID = fmt.Sprintf("%s.%s = %s in %s", "tar.Header", name, shorten(valueExpr(c, st.Val, 0), 50), c.funcKey(fn))
+						atID = st
+					}
+				case isNamed(derefType(fa.X.Type()), rpmpackPath, "RPMFile") && name == "Type":
+					nType++
+					if allocOf(fa.X) == nil && !freshPointer(c, fa.X) {
+						badType = fmt.Sprintf("RPMFile.Type stored through %s in %s", shorten(valueExpr(c, fa.X, 0), 40), c.funcKey(fn))
+						atType = st
+					}
+				}
+			})
+		}
+	}
+	pos := func(in ssa.Instruction) string {
+		if in == nil {
+			return "-"
+		}
+		return c.instrPos(in)
+	}
+	r.Check(badID == "", "F10-ids", "numeric uid/gid fields of tar headers are zero or a non-negative constant", pos(atID),
+		fmt.Sprintf("%d store(s) to Uid/Gid examined; %s: a computed id can be negative or out of range, and strict readers (dpkg-deb) reject such a header", nIDs, badID))
+	r.Check(badType == "", "F10-rpm-type", "rpm file type flags are fixed where the record is built", pos(atType),
+		fmt.Sprintf("%d store(s) to RPMFile.Type examined; %s: flags changed after the builder has chosen them no longer match how rpmpack classifies the entry (ghost entries would get a payload)", nType, badType))
+	r.Floor("F10-rpm-type", nType, 1)
 }
